@@ -110,4 +110,34 @@ PROPS = {
         "level_note": "Trusted: the harness notion of structural identity (exception flag, pattern, modifier value sets).",
         "assumptions": COMMON_ASSUME + ["the order of values inside a modifier is not part of a rule's identity (C04: value order never matters; the repository's own tests expect this for $ctag and $client)"],
     },
+    "C10": {
+        "shards": (4, 16),
+        "fuzz": [("FuzzC10", 90)],
+        "rule": "rapid grammar: short form (keywords, near-keywords, IPs incl. IPv4-mapped, bracketed and zoned, host names with bad labels) and full form RCODE;TYPE;VALUE over every rcode name class, every record type with a handler plus NS/SOA/ANY/NONE/RESERVED/unknown in mixed case, values with wrong field counts, uint16 bounds (-1, 0, 65535, 65536, 1e20, non-ASCII digits), dotted names, trailing dots, extra ';', escaped commas, free printable values; thorough adds native coverage-guided fuzzing over the raw value. "
+                "Oracle: NewNetworkRule('||h^$dnsrewrite='+v) errors (and returns no rule) or yields a DNSRewrite satisfying the published shape predicate; a consumer-style type switch must not panic; parsing twice is deeply equal. Non-trivial = value accepted, or rejected although it has the three-field form (i.e. by an rcode/type/handler check); distinct by value.",
+        "technique": "grammar-based property-based testing (rapid) + native coverage-guided fuzzing with a shape-predicate oracle",
+        "level_text": "Generated and coverage-guided search for an accepted value with a wrong shape or a crash.",
+        "level_note": "Trusted: the shape predicate transcribed from the RRValue/DNSRewrite documentation.",
+        "assumptions": COMMON_ASSUME + ["a value is a single modifier value (no unescaped comma, no line break)"],
+    },
+    "C18": {
+        "shards": (4, 16),
+        "fuzz": [("FuzzC18", 60)],
+        "rule": "rapid: lines 'IP (sp|tab)+ name ((sp|tab)+ name)* [ws* # any]' and 'name [ws* # any]' with IPv4, IPv6, IPv4-mapped addresses, 1..8 names (pool + generated), comments with or without a preceding blank over printable ASCII incl. '#', '$$', '$@$', names of other hosts, cosmetic-marker-like starts (only after a blank, as the property requires), trailing blanks. "
+                "Oracle: NewRule gives a *HostRule with Hostnames == listed names, IP == parsed address (0.0.0.0 for a bare domain), Text == trimmed line; HostRule.Match(n) iff n listed, probed with the listed names, one-character truncations/extensions, upper-case variants and every token of the comment; DNSEngine.Match(n) returns the rule iff listed, under V4/V6 by address form. Non-trivial = line with a comment, >=2 names or an IPv6 address; distinct by line.",
+        "technique": "grammar-based property-based testing (rapid) + native fuzzing of the free parts, reference = the generated model of the line",
+        "level_text": "Generated search over the hosts-line grammar; the model of the line is the oracle, so parsing is never compared with itself.",
+        "level_note": "Trusted: netip.ParseAddr for the address; lines outside the stated grammar are skipped and counted.",
+        "assumptions": COMMON_ASSUME + ["a comment that starts with an element-hiding marker directly after a name is cosmetic syntax by definition (outside the contract)"],
+    },
+    "C17": {
+        "shards": (4, 16),
+        "fuzz": [("FuzzC17", 60)],
+        "rule": "rapid: scheme://host[:port] + (nothing | /path | ?query) + optional #fragment (never directly after host/port); schemes incl. chrome-extension and upper case; hosts from labels x suffixes covering multi-level ICANN suffixes, wildcard and exception PSL rules (ck/www.ck, kobe.jp/city.kobe.jp), private suffixes (github.io, blogspot.com, s3.amazonaws.com), non-PSL TLDs, suffixes themselves, single labels, IPv4 literals, generated labels; paths/queries with '//', ':', '?', '@'; URLs straddling the 4096-byte cap; sources: empty, same host/parent/sibling/sub-domain of the URL host, or independent; plus NewRequestForHostname hosts. "
+                "Oracle: net/url Hostname(), publicsuffix.EffectiveTLDPlusOne (host itself on error), third-party = source present and registrable domains differ, symmetric under swapping; URL = 4096-byte prefix; URLLowerCase = ASCII lower-casing. Non-trivial = host with >=3 labels or on a multi-label/private suffix; distinct by (url, source).",
+        "technique": "differential property-based testing (rapid) against net/url and x/net/publicsuffix + native fuzzing with a contract filter",
+        "level_text": "Generated search against the two standard libraries the property names as reference.",
+        "level_note": "Trusted: net/url and golang.org/x/net/publicsuffix (the same PSL snapshot the repository depends on).",
+        "assumptions": COMMON_ASSUME + ["URLs are within the stated contract (hierarchical, no userinfo, no fragment directly after the host, no empty host label); others are skipped and counted"],
+    },
 }
